@@ -107,9 +107,12 @@ Fine(a) ==
            \* data made of zeros (every cell, the first row, the first column): "nothing there" and "all zero" are different things
            \cup {[text |-> VBlock("NO", "SPACE") \o WBlock("null1") \o CBlock(a[2])
                            \o ABlock(a[1], a[2], NoDeco(a[1]), LAMBDA i, j : IF z = "all" \/ (z = "row1" /\ i = 1) \/ (z = "col1" /\ j = 1)
-                                                                            THEN "ZERO" ELSE "FIN")
+                                                                            THEN "ZERO"
+                                                                            \* ... and samples equal to NULL, in the index too
+                                                                            ELSE IF (z = "nullidx" /\ i = 1 /\ j = 1) \/ (z = "nullrow" /\ i = 1)
+                                                                            THEN "NULLEQ" ELSE "FIN")
                            \o Concat([i \in DOMAIN a[3] |-> Block(a[3][i], 1, 1, <<>>, 1, 1, 1)]),
-                  opts |-> Opts0, tag |-> <<"zero", a[1], a[2], z, a[3]>>] : z \in {"all", "row1", "col1"}}
+                  opts |-> Opts0, tag |-> <<"zero", a[1], a[2], z, a[3]>>] : z \in {"all", "row1", "col1", "nullidx", "nullrow"}}
       [] Family = "C06" ->
            \* class masks on r x c blocks, NULL present or absent, policy strict / none, wrapped or not
            {[text |-> VBlock(a[6], "SPACE") \o (IF a[5] THEN WBlock("null1") ELSE <<T("W"), It("WELL", "w1")>>) \o CBlock(a[2])
